@@ -17,7 +17,7 @@
   `prime v` is `Variable(f"{v}_prime")` that rule 1 gives the exogenous copy of latent `v`.
 
   The model is of the code AFTER the `fix:` commits of F7 (nodes without edges survive both
-  conversions; widow removal runs to a fixpoint).
+  conversions; widow removal runs to a fixpoint), F13 and F14 (generated names skip existing nodes).
 
   Core Lean only (no Mathlib): the driver is compiled natively.
 -/
@@ -78,9 +78,16 @@ def iterLatents (D : LV) : Except Err (List Nat) := do
 
 /-! ### rule 1: `transform_latents_with_parents` -/
 
+/-- `while new_node in graph: new_node = Variable(f"{new_node}{suffix}")` (after `fix:` F14): the first
+of `n, prime n, prime (prime n), …` that is not a node.  Among `|nodes| + 1` distinct candidates one is
+free, so the fuel never runs out when the iterates are distinct (they are: each is longer). -/
+def primeFree (prime : Nat → Nat) (nodes : List Nat) : Nat → Nat → Nat
+  | 0, n => n
+  | fuel + 1, n => if n ∈ nodes then primeFree prime nodes fuel (prime n) else n
+
 /-- body of the loop for one latent `v` (`iter_middle_latents` skips it unless it has both parents
-and children): remove it, connect every parent to every child, add the exogenous copy `prime v`
-above the children. -/
+and children): remove it, connect every parent to every child, add the exogenous copy (named
+`prime v`, or the next free iterate of `prime`) above the children. -/
 def transformStep (prime : Nat → Nat) (D : LV) (v : Nat) : LV :=
   let ps := D.parents v
   let cs := D.children v
@@ -88,13 +95,14 @@ def transformStep (prime : Nat → Nat) (D : LV) (v : Nat) : LV :=
   else
     let D1 := D.removeNode v
     let D2 := (ps.flatMap (fun p => cs.map (fun c => (p, c)))).foldl addEdge D1
-    let D3 := D2.addLatentNode (prime v)
-    cs.foldl (fun D c => D.addEdge (prime v, c)) D3
+    let v' := primeFree prime D2.nodes (D2.nodes.length + 1) (prime v)
+    let D3 := D2.addLatentNode v'
+    cs.foldl (fun D c => D.addEdge (v', c)) D3
 
 /-- `transform_latents_with_parents`.  The Python iterates a lazy `nx.topological_sort` of the graph
 it is mutating; the nodes it yields are those of the input graph in the input's generation order
 (a removed latent has already been expanded, an added edge starts at an expanded node or at a new
-node, so no `RuntimeError` can fire unless `prime v` collides with an existing node). -/
+node, and the new node is never an existing one, so no `RuntimeError` can fire). -/
 def transformLatentsWithParents (prime : Nat → Nat) (D : LV) : Except Err LV := do
   let ls ← D.iterLatents
   pure (ls.foldl (transformStep prime) D)
@@ -192,11 +200,18 @@ def insertPair (a : Nat × Nat) : List (Nat × Nat) → List (Nat × Nat)
 /-- `sorted(bi_edges_list)` (tuples of `Variable`s compare lexicographically by name) -/
 def sortPairs (l : List (Nat × Nat)) : List (Nat × Nat) := l.foldr insertPair []
 
-/-- the loop `for i, (u, v) in enumerate(sorted(bi_edges_list), start=0)` -/
+/-- `next(name for name in latent_names if name not in rv)` (after `fix:` F13): the first index `j ≥ i`
+whose name `fresh j` is not a node; `|nodes| + 1` candidates suffice when `fresh` is injective. -/
+def nextFree (fresh : Nat → Nat) (nodes : List Nat) : Nat → Nat → Nat
+  | 0, i => i
+  | fuel + 1, i => if fresh i ∈ nodes then nextFree fresh nodes fuel (i + 1) else i
+
+/-- the loop `for u, v in sorted(bi_edges_list)`; `i` is the state of the shared counter `itt.count(start)` -/
 def addLatents (fresh : Nat → Nat) : List (Nat × Nat) → Nat → LV → LV
   | [], _, D => D
   | (u, v) :: es, i, D =>
-    addLatents fresh es (i + 1) (((D.addLatentNode (fresh i)).addEdge (fresh i, u)).addEdge (fresh i, v))
+    let j := nextFree fresh D.nodes (D.nodes.length + 1) i
+    addLatents fresh es (j + 1) (((D.addLatentNode (fresh j)).addEdge (fresh j, u)).addEdge (fresh j, v))
 
 def ofMG (fresh : Nat → Nat) (G : MG Nat) : LV :=
   let bis := G.bi.map (nxOrient G.nodes)
